@@ -149,6 +149,12 @@ func Check(i *Item) error {
 }
 
 func CheckIncoming(stored, incoming *Item) error {
+	// Cas should be ignored if not present. If present it must be the sequence number of the
+	// item being overwritten.
+	if incoming.Cas != 0 && incoming.Cas != stored.Seq {
+		return ErrCasHashMismatched
+	}
+
 	// If the sequence number is equal, and the value is also the same,
 	// the node SHOULD reset its timeout counter.
 	if stored.Seq == incoming.Seq {
@@ -162,15 +168,6 @@ func CheckIncoming(stored, incoming *Item) error {
 
 	if stored.Seq >= incoming.Seq {
 		return ErrSequenceNumberLessThanCurrent
-	}
-
-	// Cas should be ignored if not present
-	if stored.Cas == 0 {
-		return nil
-	}
-
-	if stored.Cas != incoming.Cas {
-		return ErrCasHashMismatched
 	}
 
 	return nil
